@@ -21,7 +21,7 @@ Start ==
 
 \* key elements for one mode
 FullElems == {KInt(0), KInt(1), KInt(2), KInt(0 - 1), KSlice(0 - 1, 0 - 1), KSlice(0, 1), KSlice(1, 0 - 1),
-              KSlice(0 - 1, 3), KList(<<0, 1>>), KList(<<1, 0>>), KList(<<0, 2>>), KStep(0 - 1, 0 - 1, 2), KStep(1, 0 - 1, 2)}
+              KSlice(0 - 1, 3), KSlice(1, 3), KList(<<0, 1>>), KList(<<1, 0>>), KList(<<0, 2>>), KStep(0 - 1, 0 - 1, 2), KStep(1, 0 - 1, 2)}
 MedElems  == {KInt(0), KInt(2), KInt(0 - 1), KSlice(0 - 1, 0 - 1), KSlice(0, 1), KSlice(0 - 1, 3), KList(<<1, 0>>), KStep(0 - 1, 0 - 1, 2)}
 GrowElems == {KInt(0), KInt(1), KSlice(0, 2)}          \* last element of a key that adds a mode
 
